@@ -148,6 +148,9 @@ def plan(tier, seed):
             nsh = 8 if b <= 1 else 16
         for c in range(nsh):
             shards.append(("sched", shp, bd, T, b, c, nsh, stride))
+    for T, mx in ((2, 3), (2, 5), (3, 4)) if tier == "quick" else ((2, 3), (2, 5), (3, 4), (3, 7), (4, 5)):
+        for c in range(8):
+            shards.append(("sched_team", (4, 5), "low", T, 1, c, 8, 2 if tier == "quick" else 1, mx))
     k = seed % len(shards)
     return shards[k:] + shards[:k]
 
@@ -504,6 +507,18 @@ def _frame_for(shp, bd, perm):
 
 
 def _run_sched(desc):
+    if desc[0] == "sched_team":
+        # the runtime grants a team smaller than the maximum it reports (OMP_THREAD_LIMIT, OMP_DYNAMIC): same exploration, same answer
+        V = _vrt()
+        V.L.vrt_report_max_threads(int(desc[-1]))
+        try:
+            sh = _run_sched(("sched",) + tuple(desc[1:-1]))
+        finally:
+            V.L.vrt_report_max_threads(0)
+        for v in sh.violations:
+            v["case"]["max_threads_reported"] = int(desc[-1])
+            v["key"] = v["key"].replace("schedule-dependent", "schedule-dependent[team smaller than omp_get_max_threads]")
+        return sh
     _, shp, bd, T, bound, c, nsh, stride = desc
     sh = Shard()
     V = _vrt()
@@ -606,9 +621,11 @@ def replay(case):
     lout = np.zeros(im.shape, np.int32); l = np.zeros(im.shape, np.uint8)
     V.register(im, lout, l)
     # the conflict filter must be the fixpoint one: recompute it by a bound-0 exploration first
+    V.L.vrt_report_max_threads(int(case.get("max_threads_reported", 0)))
     r, (prepare, call, observe, lout2) = explore_image(im, case["T"], case["bound"], tuple(case["poison"]))
     prepare()
     rr = V.run(call, case["T"], case["schedule"])
+    V.L.vrt_report_max_threads(0)
     n, buf = observe(rr["ret"])
     lab = np.frombuffer(buf, np.int32).reshape(im.shape)
     ok = (n == n_want) and _same_partition(lab, want)
